@@ -46,6 +46,55 @@ def find_name_dispatch(ctx: Context):
             k, call, acc = produced(d.default)
             if call is not None and ctx.is_call(f, call, "hashlib.new"):
                 found.append((f, d, k, acc))
+    if not found:
+        # table form: C = TABLE.get(name); if C is None: <fall-through>;
+        # return C()  - one arm per literal key of the module-level table
+        from sa.dispatch import Dispatch
+        mod = ctx.repo.module(UT)
+        for f in mod.functions.values():
+            if isinstance(f.node, ast.Lambda):
+                continue
+            body = [s for s in f.node.body if not (isinstance(
+                s, ast.Expr) and isinstance(s.value, ast.Constant))]
+            for i, s in enumerate(body):
+                tgt = s.targets[0] if isinstance(s, ast.Assign) and len(
+                    s.targets) == 1 else (s.target if isinstance(
+                        s, ast.AnnAssign) else None)
+                v = getattr(s, "value", None)
+                if not (isinstance(tgt, ast.Name) and isinstance(
+                        v, ast.Call) and isinstance(
+                            v.func, ast.Attribute) and v.func.attr == "get"
+                        and isinstance(v.func.value, ast.Name) and isinstance(
+                            mod.globals.get(v.func.value.id), ast.Dict) and
+                        len(v.args) == 1 and isinstance(v.args[0], ast.Name)):
+                    continue
+                table = mod.globals[v.func.value.id]
+                rest = body[i + 1:]
+                if len(rest) != 2 or not isinstance(rest[0], ast.If) or \
+                        rest[0].orelse or not isinstance(rest[1], ast.Return):
+                    continue
+                t = rest[0].test
+                is_none = isinstance(t, ast.Compare) and len(t.ops) == 1 and \
+                    isinstance(t.ops[0], ast.Is) and dotted(t.left) == tgt.id \
+                    and isinstance(t.comparators[0], ast.Constant) and \
+                    t.comparators[0].value is None
+                rv = rest[1].value
+                calls_it = isinstance(rv, ast.Call) and dotted(
+                    rv.func) == tgt.id and not rv.args and not rv.keywords
+                if not (is_none and calls_it and all(
+                        isinstance(k, ast.Constant) for k in table.keys)):
+                    continue
+                arms = []
+                for k, val in zip(table.keys, table.values):
+                    ret = ast.Return(value=ast.Call(func=val, args=[],
+                                                    keywords=[]))
+                    ast.copy_location(ret, rest[1])
+                    ast.fix_missing_locations(ret)
+                    arms.append(([k.value], [ret]))
+                d = Dispatch(rest[0], v.args[0], arms, rest[0].body)
+                k_, call, acc = produced(d.default)
+                if call is not None and ctx.is_call(f, call, "hashlib.new"):
+                    found.append((f, d, k_, acc))
     if len(found) != 1:
         raise AnalysisError("C16.names: the name -> hash object dispatch "
                             f"(fall-through hashlib.new) was found "
